@@ -51,15 +51,17 @@ static void x_event(int kind, const char* s, size_t len, unsigned long long bits
  * advances it.  (Matching after the call would make the matcher's control state depend on the merged success/failure paths
  * of the emitter; online, the state is concrete along the emitter's straight-line path and only the verdict is merged.)
  * Blanks and newlines are not part of the contract. ---- */
-enum { X_LIT = 1, X_SLOT, X_EV };
+enum { X_LIT = 1, X_SLOT, X_EV, X_PTR };
 typedef struct Tok { int kind; const char* lit; size_t idx; unsigned t; } Tok;
-#define X_MAX 16
+#define X_MAX 32
 static Tok g_exp[X_MAX]; static int g_exp_n, g_ti, g_stage; static size_t g_off; static int g_bad;
 static const char slotLetters[4] = { 'i', 'j', 'f', 'd' };
 static void x_reset(void) { g_exp_n = 0; g_ti = 0; g_stage = 0; g_off = 0; g_bad = 0; }
 static void X_LITERAL(const char* l) { g_exp[g_exp_n].kind = X_LIT; g_exp[g_exp_n].lit = l; g_exp_n++; }
 /* one non-text event of the given kind and value (a number printed by the builder) */
 static void X_EVENT(int kind, unsigned long long bits) { g_exp[g_exp_n].kind = X_EV; g_exp[g_exp_n].t = (unsigned)kind; g_exp[g_exp_n].idx = (size_t)bits; g_exp_n++; }
+/* one string event that is exactly the given string object (a type name from the translator's table: compared by identity) */
+static void X_STRING_OBJECT(const char* sp) { g_exp[g_exp_n].kind = X_PTR; g_exp[g_exp_n].lit = sp; g_exp_n++; }
 static void X_SLOTREF(size_t idx, unsigned t) { g_exp[g_exp_n].kind = X_SLOT; g_exp[g_exp_n].idx = idx; g_exp[g_exp_n].t = t; g_exp_n++; }
 static int isws(unsigned long long c) { return c == ' ' || c == '\n'; }
 static void x_char(char ch) {   /* one non-blank character of output text */
@@ -77,6 +79,7 @@ static void x_event(int kind, const char* s, size_t len, unsigned long long bits
         g_bad |= !(kind == SB_CHR && g_exp[g_ti].t <= 3 && bits == (unsigned char)slotLetters[g_exp[g_ti].t & 3]); g_stage = 2; return; }
     if (g_ti < g_exp_n && g_exp[g_ti].kind == X_SLOT && g_stage == 2) {   /* the slot number (symbolic) */
         g_bad |= !(kind == SB_U32 && bits == (U32)g_exp[g_ti].idx); g_stage = 0; g_ti++; return; }
+    if (g_ti < g_exp_n && g_exp[g_ti].kind == X_PTR) { g_bad |= !(kind == SB_STR && s == g_exp[g_ti].lit); g_ti++; return; }
     if (g_ti < g_exp_n && g_exp[g_ti].kind == X_EV) { g_bad |= !(kind == (int)g_exp[g_ti].t && bits == (unsigned long long)g_exp[g_ti].idx); g_ti++; return; }
     if (kind == SB_STR) { for (i = 0; i < len; i++) if (!isws((unsigned char)s[i])) x_char(s[i]); }
     else if (kind == SB_CHR) { if (!isws(bits)) x_char((char)bits); }
@@ -90,14 +93,14 @@ static WasmLabelStack ls;
 static StringBuilder sbuf;
 static WasmCFunctionWriter w;
 static size_t H0, K, KD, DLEN0; static int HAS_KD;
-static WasmValueType T[3], OLDK, OLDKD, OLDD;
+static WasmValueType T[4], OLDK, OLDKD, OLDD;
 
 static int valid_t(WasmValueType t) { return (unsigned)t <= 3; }
 
 /* n operands on top of a stack of symbolic height h; entry types symbolic; declarations as after any prefix of a function */
 static void setup(unsigned n) {
     ND(size_t, h); ND(size_t, cap); ND(size_t, dlen); ND(size_t, dcap); ND(size_t, k); ND(size_t, kd);
-    ND(int, haskd); ND(unsigned, t0); ND(unsigned, t1); ND(unsigned, t2); ND(unsigned, oldk); ND(unsigned, oldkd); ND(unsigned, oldd);
+    ND(int, haskd); ND(unsigned, t0); ND(unsigned, t1); ND(unsigned, t2); ND(unsigned, t3); ND(unsigned, oldk); ND(unsigned, oldkd); ND(unsigned, oldd);
     unsigned i;
     ASSUME(h >= n && h <= HMAX && cap >= h && cap >= 1 && cap <= HMAX + 4);
     /* every push declares its slot, so declarations reach at least up to the operands; the destination slot h-n may be new */
@@ -105,7 +108,7 @@ static void setup(unsigned n) {
 #ifdef NO_GROW
     ASSUME(dcap > h && cap > h);
 #endif
-    ASSUME(t0 <= 3 && t1 <= 3 && t2 <= 3 && oldkd <= 15 && oldd <= 15);
+    ASSUME(t0 <= 3 && t1 <= 3 && t2 <= 3 && t3 <= 3 && oldkd <= 15 && oldd <= 15);
 #ifdef CONST_OBJ   /* objects of constant (maximal) size, symbolic capacity fields */
     ts.valueTypes = malloc((HMAX + 4) * sizeof(WasmValueType)); ASSUME(ts.valueTypes != 0);
     decl.valueTypes = malloc((HMAX + 4) * sizeof(WasmValueType)); ASSUME(decl.valueTypes != 0);
@@ -114,7 +117,7 @@ static void setup(unsigned n) {
     decl.valueTypes = malloc(dcap * sizeof(WasmValueType)); ASSUME(decl.valueTypes != 0);
 #endif
     ts.length = h; ts.capacity = cap; decl.length = dlen; decl.capacity = dcap;
-    T[0] = (WasmValueType)t0; T[1] = (WasmValueType)t1; T[2] = (WasmValueType)t2;
+    T[0] = (WasmValueType)t0; T[1] = (WasmValueType)t1; T[2] = (WasmValueType)t2; T[3] = (WasmValueType)t3;
     for (i = 0; i < n; i++) ts.valueTypes[h - 1 - i] = T[i];
     /* ghost entries: one below the operands in the type stack, one anywhere in the declarations, and the destination's old declaration word */
     K = k; KD = kd; H0 = h; DLEN0 = dlen;
@@ -128,7 +131,7 @@ static void setup(unsigned n) {
     memset(&w, 0, sizeof w);
     w.builder = &sbuf; w.typeStack = &ts; w.stackDeclarations = &decl; w.labelStack = &ls;
     w.pretty = PRETTY; w.indent = INDENT;
-    g_sb_n = 0; x_reset();
+    g_sb_n = 0; g_sb_overflow = 0; g_grow_failed = 0; x_reset();   /* explicit: goto-instrument --dfcc leaves statics unconstrained */
 }
 /* common postcondition: n operands replaced by `push` (0/1) values of type r in slot h-n */
 static void post_stack_n(unsigned n, unsigned push, WasmValueType r) {
@@ -357,3 +360,106 @@ void h_ignored(void) { bool ok; size_t len0, dl0; setup(1); local_setup(); w.ign
     OBL(g_sb_n == 0, "dead code: nothing is written");
     OBL(ts.length == len0 && decl.length == dl0 && ts.valueTypes[H0 - 1] == T[0], "dead code: both stacks are untouched");
     CANARY("ignored"); }
+
+/* ---- calls: the arguments are the top P slots in declaration order (deepest = first parameter), named with the DECLARED parameter types;
+ * the result lands in the slot of the first argument (or the next free slot when there is none) ---- */
+#ifndef NPAR
+#define NPAR 2
+#endif
+#ifndef NRES
+#define NRES 1
+#endif
+static WasmFunctionType g_cft; static WasmValueType g_cpt[4]; static WasmValueType g_crt[1]; static WasmFunction g_fns[4];
+static U32 CALL_F; static unsigned CALL_R;
+#ifndef CALL_FIDX
+#define CALL_FIDX 3
+#endif
+static void call_setup(int indirect) { U32 f = CALL_FIDX; U32 nf = 4;   /* the function index is a job constant: a symbolic index into the array of (large) function records exhausted the solver's memory */
+    ND(unsigned, r); ND(unsigned, q0); ND(unsigned, q1); ND(unsigned, q2); unsigned L;
+    ASSUME(r <= 3 && q0 <= 3 && q1 <= 3 && q2 <= 3);
+    memset(&g_mod, 0, sizeof g_mod); w.module = &g_mod; w.ignore = false; w.moduleName = "mod"; w.multipleModules = false;
+    g_cpt[0] = (WasmValueType)q0; g_cpt[1] = (WasmValueType)q1; g_cpt[2] = (WasmValueType)q2; g_crt[0] = (WasmValueType)r;
+    g_cft.parameterCount = NPAR; g_cft.parameterTypes = g_cpt; g_cft.resultCount = NRES; g_cft.resultTypes = g_crt;
+    g_mod.functionTypes.functionTypes = &g_cft; g_mod.functionTypes.count = 1;
+    g_fns[0].functionTypeIndex = 0; g_fns[1].functionTypeIndex = 0; g_fns[2].functionTypeIndex = 0; g_fns[3].functionTypeIndex = 0;
+    g_mod.functions.functions = g_fns; g_mod.functions.count = nf;
+    CALL_F = f; CALL_R = r;
+    /* immediates: call f | call_indirect typeidx 0, table 0 - padded LEB128 */
+    if (!indirect) { g_code[0] = (U8)((f & 0x7f) | 0x80); g_code[1] = (U8)(((f >> 7) & 0x7f) | 0x80); g_code[2] = (U8)(((f >> 14) & 0x7f) | 0x80); g_code[3] = (U8)(((f >> 21) & 0x7f) | 0x80); g_code[4] = (U8)(f >> 28); L = 5; }
+    else { g_code[0] = 0x80; g_code[1] = 0x00; g_code[2] = 0x80; g_code[3] = 0x80; g_code[4] = 0x00; L = 5; }
+    g_codebuf.data = g_code; g_codebuf.length = L; w.code = &g_codebuf; }
+void h_call(void) { bool ok; unsigned j; setup(NPAR); call_setup(0);
+    if (NRES) { X_SLOTREF(H0 - NPAR, CALL_R); X_LITERAL("="); }
+    X_LITERAL("f"); X_EVENT(SB_U32, CALL_F); X_LITERAL("(i");
+    for (j = 0; j < NPAR; j++) { X_LITERAL(","); X_SLOTREF(H0 - NPAR + j, g_cpt[j]); }
+    X_LITERAL(");");
+    ok = wasmCWriteCallExpr(&w);
+    SUCCEEDS(ok, "call");
+    OBL(X_MATCHED, "call: writes  [s<R><h-P> =] f<index>(i, s<PT0><h-P>, ..., s<PT(P-1)><h-1>);  arguments in declaration order from the deepest slot, declared parameter types, result in the first argument's slot");
+    OBL(g_codebuf.length == 0, "call: consumes exactly its immediate");
+    post_stack_n(NPAR, NRES, (WasmValueType)CALL_R); CANARY("call"); }
+void h_call_indirect(void) { bool ok; unsigned j; setup(NPAR + 1); call_setup(1);
+    if (NRES) { X_SLOTREF(H0 - 1 - NPAR, CALL_R); X_LITERAL("="); }
+    X_LITERAL("TF(i->t"); X_EVENT(SB_U32, 0); X_LITERAL(","); X_SLOTREF(H0 - 1, T[0]); X_LITERAL(",");
+    if (NRES) X_STRING_OBJECT(valueTypeNames[CALL_R & 3]); else X_LITERAL("void");
+    X_LITERAL("(*)(modInstance*");
+    for (j = 0; j < NPAR; j++) { X_LITERAL(","); X_STRING_OBJECT(valueTypeNames[g_cpt[j] & 3]); }
+    X_LITERAL("))(i");
+    for (j = 0; j < NPAR; j++) { X_LITERAL(","); X_SLOTREF(H0 - 1 - NPAR + j, g_cpt[j]); }
+    X_LITERAL(");");
+    ok = wasmCWriteCallIndirectExpr(&w);
+    SUCCEEDS(ok, "call_indirect");
+    OBL(X_MATCHED, "call_indirect: writes  [s<R><h-1-P> =] TF(i->t0, s<T0><h-1>, R (*)(modInstance*, PT...))(i, s<PT0><h-1-P>, ...);  the table index is the TOP slot, the arguments lie below it in order, the cast spells the declared signature");
+    OBL(g_codebuf.length == 0, "call_indirect: consumes exactly its immediates (padded encodings too)");
+    post_stack_n(NPAR + 1, NRES, (WasmValueType)CALL_R); CANARY("call_indirect"); }
+
+/* ---- branches: br / br_if to a label at ANY relative depth of a label stack of ANY length, from ANY stack height: the carried value
+ * (if the label has a result type) is copied from the top slot to the label's result slot - the slot at the height recorded when the
+ * label was pushed - unless it already is that slot; the operand stack itself is not changed by the jump (the `end` restores it) ---- */
+#ifndef BR_CLASS
+#define BR_CLASS 0      /* 0: typed label, value must be copied; 1: typed label, value already in place; 2: label without result */
+#endif
+static WasmLabel* g_labels; static WasmValueType g_ltype; static size_t BR_D; static U32 BR_LI; static unsigned BR_R; static WasmValueType BR_OLDD;
+static void br_setup(size_t top_after_pops) { ND(size_t, ln); ND(U32, rel); ND(U32, li); ND(size_t, dd); ND(unsigned, r); ND(unsigned, oldd); size_t pos;
+    ASSUME(ln >= 1 && ln <= (1u << 16) && rel < ln && r <= 3 && oldd <= 15);
+    g_labels = (WasmLabel*)malloc(ln * sizeof(WasmLabel)); ASSUME(g_labels != 0);
+    ls.labels.labels = g_labels; ls.labels.length = ln; ls.labels.capacity = ln; ls.nextLabelIndex = 0;
+    pos = ln - 1 - rel; g_ltype = (WasmValueType)r;
+    /* validation: a label's height is at most the height of the stack below the carried value */
+#if BR_CLASS == 0
+    ASSUME(dd < top_after_pops);
+#elif BR_CLASS == 1
+    ASSUME(dd == top_after_pops);
+#else
+    ASSUME(dd <= top_after_pops + 1);
+#endif
+    g_labels[pos].index = li; g_labels[pos].typeStackLength = dd; g_labels[pos].type = (BR_CLASS == 2) ? (WasmValueType*)0 : &g_ltype;
+    BR_D = dd; BR_LI = li; BR_R = r;
+    if (BR_CLASS == 0) { ASSUME(!HAS_KD || KD != dd); if (dd < decl.length) { decl.valueTypes[dd] = (WasmValueType)oldd; BR_OLDD = (WasmValueType)oldd; } else BR_OLDD = (WasmValueType)0; }
+    memset(&g_mod, 0, sizeof g_mod); w.module = &g_mod; w.ignore = false;
+    /* immediate: relative depth, padded LEB128 */
+    g_code[0] = (U8)((rel & 0x7f) | 0x80); g_code[1] = (U8)(((rel >> 7) & 0x7f) | 0x80); g_code[2] = (U8)(((rel >> 14) & 0x7f) | 0x80); g_code[3] = (U8)(((rel >> 21) & 0x7f) | 0x80); g_code[4] = (U8)(rel >> 28);
+    g_codebuf.data = g_code; g_codebuf.length = 5; w.code = &g_codebuf; }
+static void x_goto(size_t src_idx, unsigned src_t) {
+    if (BR_CLASS == 0) { X_SLOTREF(BR_D, BR_R); X_LITERAL("="); X_SLOTREF(src_idx, src_t); X_LITERAL(";"); }
+    X_LITERAL("gotoL"); X_EVENT(SB_U32, BR_LI); X_LITERAL(";"); }
+static void br_post(size_t newlen) {
+    OBL(g_codebuf.length == 0, "branch: consumes exactly its immediate");
+    OBL(ts.length == newlen, "branch: the operand stack is left as it is for the code that follows in the same block (apart from br_if's condition)");
+    if (newlen > 0) OBL(ts.valueTypes[newlen - 1] == T[H0 - newlen], "branch: the carried value stays on the stack");
+    if (H0 > 2) OBL(ts.valueTypes[K] == OLDK, "branch: entries below are unchanged (ghost index)");
+    if (BR_CLASS == 0) OBL(decl.valueTypes[BR_D] == (WasmValueType)(BR_OLDD | (1u << BR_R)), "branch: the label's result variable (slot at the label's height, label's result type) is declared");
+    if (HAS_KD) OBL(decl.valueTypes[KD] == OLDKD, "branch: no other slot's declarations change (ghost index)");
+    OBL(ls.labels.length > 0 && g_labels[ls.labels.length - 1 - 0].index == g_labels[ls.labels.length - 1].index, "branch: the label stack is not changed"); }
+void h_br(void) { bool ok; setup(1); ASSUME(H0 >= 1); br_setup(H0 - 1);
+    x_goto(H0 - 1, T[0]);
+    ok = wasmCWriteBranchExpr(&w);
+    SUCCEEDS(ok, "br");
+    OBL(X_MATCHED, "br: writes  [s<R><label height> = s<T0><h-1>;] goto L<label index>;  the label is the one at the given RELATIVE depth from the top of the label stack");
+    br_post(H0); CANARY("br"); }
+void h_br_if(void) { bool ok; setup(2); ASSUME(H0 >= 2); br_setup(H0 - 2);
+    X_LITERAL("if("); X_SLOTREF(H0 - 1, T[0]); X_LITERAL("){"); x_goto(H0 - 2, T[1]); X_LITERAL("}");
+    ok = wasmCWriteBranchIfExpr(&w);
+    SUCCEEDS(ok, "br_if");
+    OBL(X_MATCHED, "br_if: writes  if (s<T0><h-1>) { [s<R><label height> = s<T1><h-2>;] goto L<label index>; }  the condition is popped first, the copy and the jump are BOTH inside the braces");
+    br_post(H0 - 1); CANARY("br_if"); }
